@@ -23,8 +23,10 @@ func validateDeltaEncoding(sharedLen, unsharedLen uint16, currentKey, data []byt
 		return fmt.Errorf("insufficient data for unshared key: need %d bytes, have %d", unsharedLen, len(data))
 	}
 
-	// Check for reasonable key length limits to prevent memory exhaustion
-	const maxReasonableKeyLen = 64 * 1024 // 64KB
+	// Check for reasonable key length limits to prevent memory exhaustion. Key
+	// lengths are 16-bit in the block format and the caller adds the two parts
+	// as uint16, so the total must stay below 64KB
+	const maxReasonableKeyLen = 64*1024 - 1
 	totalKeyLen := uint32(sharedLen) + uint32(unsharedLen)
 	if totalKeyLen > maxReasonableKeyLen {
 		return fmt.Errorf("reconstructed key length %d exceeds reasonable limit %d", totalKeyLen, maxReasonableKeyLen)
